@@ -87,8 +87,56 @@ def _declared(repo, cinfo, attr):
     return None
 
 
+def save_exp_form(repo, col, R):
+    """The evaluator looks through the saturation inside `save_exp` (and only there): that is sound only while save_exp(x) IS
+    exp(min(x, 20)) -- an upper clip, nothing else, with the documented bound.  A lower clip, another bound or a changed body alters
+    every rate of every mechanism."""
+    from . import idx
+    from sa.terms import T
+    fi = repo.func("jaxley/solver_gate.py", "save_exp")
+    ex = idx.expander(repo, fi)
+    r = ex.merged_return() if len(ex.returns) != 1 else ex.returns[0]
+    if r is None:
+        raise AnalysisError("save_exp has no return value")
+    x, bound_p = fi.params[0], (fi.params[1] if len(fi.params) > 1 else None)
+    is_x = lambda t: t.op == "param" and t.name == x
+    ok, why = False, f"returns {r.short(100)}"
+    bound = None
+    if r.op in ("mcall", "call") and r.name == "exp":
+        a = [q for q in r.args if q.op != "free"]
+        c = a[0] if a else None
+        if c is not None and c.op in ("mcall", "call") and c.name in ("clip", "minimum"):
+            ca = [q for q in c.args if q.op != "free"]
+            if c.name == "minimum" and len(ca) == 2 and is_x(ca[0]):
+                bound = ca[1]
+            elif c.name == "clip" and ca and is_x(ca[0]):
+                lo = c.kw.get("min", c.kw.get("a_min", ca[1] if len(ca) > 1 else None))
+                hi = c.kw.get("max", c.kw.get("a_max", ca[2] if len(ca) > 2 else None))
+                if lo is None or (lo.op == "const" and lo.name is None):
+                    bound = hi
+                else:
+                    why = f"the exponent is also clipped from below (`{c.short(60)}`): exp no longer decays for very negative arguments"
+    ok = bound is not None
+    col.check(ok, R, fi, "save_exp(x) = exp(min(x, bound)): an upper clip of the exponent and nothing else", "exp(clip(x, max=max_value))", why, node=fi.node)
+    if ok:
+        dflt = None
+        if bound.op == "param" and bound.name == bound_p and fi.node.args.defaults:
+            d = fi.node.args.defaults[-1]
+            dflt = d.value if isinstance(d, ast.Constant) else None
+        elif bound.op == "const":
+            dflt = bound.name
+        col.check(dflt == 20.0, R, fi, "the exponent saturates at 20 (exp(20) ~ 4.9e8; reached only outside the physiological range)", "max_value = 20.0",
+                  f"the bound is {dflt!r}: with a smaller bound the rate functions saturate inside the voltage range, with none exp overflows", node=fi.node)
+        callers = [(f, c) for f in repo.all_functions() for c in ast.walk(f.node) if isinstance(c, ast.Call) and unparse(c.func).split(".")[-1] == "save_exp"
+                   and (len(c.args) > 1 or c.keywords)]
+        col.check(not callers, R, fi, "no caller overrides the saturation bound", "all calls are save_exp(u)",
+                  f"`{unparse(callers[0][1])[:60]}` in {callers[0][0].qual} passes its own bound" if callers else "", node=callers[0][1] if callers else fi.node)
+
+
 def check(repo, col, tier):
     spec = kin.load_spec()
+    col.rule("R-C04-saturation", "save_exp is exp with an upper clip of the exponent at 20", 1)
+    save_exp_form(repo, col, "R-C04-saturation")
     col.rule("R-C04-eq", "code canonical form == published form (cross-multiplied identity)", 30)
     col.rule("R-C04-defaults", "defaults equal the published ones / shared names agree / conductances > 0", 8)
     col.rule("R-C04-keys", "keys read are declared by the same class with the same prefix pattern", 30)
